@@ -3,6 +3,7 @@ open Skg
 
 def dispatch (line : String) : String :=
   match line.splitOn "|" with
+  | "c01" :: "pipeline" :: rest => (handlePipeline ("pipeline" :: rest)).getD "err|bad-request"
   | "c01" :: rest => (handleC01 rest).getD "err|bad-request"
   | "c02" :: rest => (handleC02 rest).getD "err|bad-request"
   | "c03" :: rest => (handleC03 rest).getD "err|bad-request"
